@@ -27,7 +27,9 @@ generators reject it).  A fourth (`del-default-rehooked-twice/...`) marks
 `del obj.name` / `reset_traits` of a trait that holds a value, whose default is
 itself a node or container and below which something is observed; it is drawn
 only in the strata 'x' (enumerated) and 'y' (random).  Every other disagreement is keyed
-`<complaint>/<what was observed>/after:<class of the last structural op>`.
+`<complaint>/<what was observed>/after:<class of the last structural op>`; container
+mutators whose argument aliases a stored object (strata 'a' / 'b') have their own op
+classes `aliased-arg-<list|dict|set|nested-outer>-mutation`.
 
 Histories are concrete, replayable operation lists (indices into the pool,
 reduced modulo the current length when applied), so that a ddmin shrinker can
@@ -88,7 +90,18 @@ META = {
              "observed links, containers, nested containers and leaves (holding an assigned value, a "
              "materialised default or nothing; defaults that are None, constants, fresh nodes, a shared "
              "node, fresh containers) - the del/reset ops that do not re-materialise an observed object "
-             "default are drawn in every random stratum.  "
+             "default are drawn in every random stratum, 'a' enumerated and 'b' random histories with container "
+             "mutators whose ARGUMENT aliases what the container stores: dict pop(k, default) / setdefault / "
+             "c[k] = v / get-then-set / update, |= with the default or value being the object stored under "
+             "that very key, another stored object, an outsider present elsewhere in the graph (an equal twin "
+             "in the all-equal flavour) or None, keys present and absent; update / |= with the dict itself, a "
+             "copy, its own pairs, rotated values; list append / insert / c[i] = / remove / extend / += / "
+             "slice assignment of stored objects, of the list itself, of its own slices (same, reversed, "
+             "rotated, extended slices); set add / discard / remove of stored objects and every in-place set "
+             "operation with the set itself, a copy, or a stored element; `a.tr OP= a.tr` through the "
+             "attribute; the same on the inner containers of containers and on the outer containers (whose "
+             "stored objects are the inner containers, also an equal plain copy as argument); an object that "
+             "left through such an op is put back and taken out again.  "
              "distinct_nontrivial "
              "counts distinct (stratum, step kind, method, expression shape, text/object form, all-equal "
              "flag, expected, observed) signatures of steps in which the model expected an event, an "
@@ -127,7 +140,14 @@ META = {
                   "reroot_bound_handler": 150, "reroot_populated_after": 100,
                   "histories_del": 100, "histories_del_directed": 70, "del_ops": 900, "reset_ops": 350,
                   "del_valued": 1200, "del_noop": 300, "del_events_matched": 300,
-                  "del_default_rematerialised_observed": 120, "histories_del_rehook_pattern": 80},
+                  "del_default_rematerialised_observed": 120, "histories_del_rehook_pattern": 80,
+                  "histories_alias": 300, "histories_alias_directed": 700, "alias_ops": 1300,
+                  "alias_dict_ops": 400, "alias_list_ops": 450, "alias_set_ops": 270,
+                  "alias_nested_inner_ops": 90, "alias_nested_outer_ops": 110, "alias_self_arg_ops": 65,
+                  "alias_pop_default_is_stored": 190, "alias_arg_at": 320, "alias_arg_own": 500,
+                  "alias_arg_outside": 75, "alias_arg_self": 140, "alias_arg_own_items": 220,
+                  "alias_events_matched": 800, "alias_quiet_silent": 45, "alias_noop_ops": 300,
+                  "alias_removed_stored": 500, "alias_left_silent": 850, "alias_left_matched": 200},
         "thorough": {"evaluations": 6000000, "probe_matched": 200000, "probe_silent": 4000000,
                      "detached_silent": 80000, "container_events_matched": 240000,
                      "link_events_matched": 10000, "quiet_link_silent": 60000,
@@ -157,7 +177,15 @@ META = {
                      "histories_del": 3000, "histories_del_directed": 140, "del_ops": 30000,
                      "reset_ops": 12000, "del_valued": 40000, "del_noop": 10000,
                      "del_events_matched": 7000, "del_default_rematerialised_observed": 3000,
-                     "histories_del_rehook_pattern": 1500},
+                     "histories_del_rehook_pattern": 1500,
+                     "histories_alias": 9500, "histories_alias_directed": 1300, "alias_ops": 20000,
+                     "alias_dict_ops": 6500, "alias_list_ops": 6500, "alias_set_ops": 3600,
+                     "alias_nested_inner_ops": 1400, "alias_nested_outer_ops": 1400,
+                     "alias_self_arg_ops": 2000, "alias_pop_default_is_stored": 2800,
+                     "alias_arg_at": 5800, "alias_arg_own": 7400, "alias_arg_outside": 1500,
+                     "alias_arg_self": 1100, "alias_arg_own_items": 2900, "alias_events_matched": 9500,
+                     "alias_quiet_silent": 850, "alias_noop_ops": 5500, "alias_removed_stored": 7500,
+                     "alias_left_silent": 14000, "alias_left_matched": 5500},
     },
     "assumptions": [
         "the reachability model (denotation of the mini-language over __dict__ values and the "
@@ -779,6 +807,8 @@ class World:
         self.selfdef = False       # sticky signature, see unread_default_assign
         self.delsig = False        # sticky signature, see del_rehook_pattern
         self.reroot_shared = set() # leaf keys of long-lived objects observed from a root that is gone
+        self.alias_left = set()    # ids of nodes that left a container through an aliased-argument op
+        self.alias_follow = []     # follow-up ops (stratum 'b'): put the object back, take it out again
         self.added = {}            # id(node) -> {name: kind}
         self.retired = []          # [(label, kind, container, kind of its items if containers)]
         self.regs = []
@@ -1119,8 +1149,12 @@ class World:
                         self.sink.count("falsy_meta_added_matched")
                 if key in self.reroot_shared:
                     self.sink.count("reroot_shared_matched")
+                if id(obj) in self.alias_left:
+                    self.sink.count("alias_left_matched")
             else:
                 self.sink.count("probe_silent")
+                if id(obj) in self.alias_left and key in self.ever[k]:
+                    self.sink.count("alias_left_silent")
                 if key in self.ever[k]:
                     self.sink.count("detached_silent")
                 if name in META_SLOTS and self.meta_value(obj, name) is None and reg.has_meta:
@@ -1425,6 +1459,10 @@ class World:
                                     "mutation (%s): before=%r after=%r" % (what, k, e, bad, before, after),
                                     {"step": what, "reg": k})
                 self.sink.count("container_events_matched")
+                if method.startswith("a_"):
+                    self.sink.count("alias_events_matched")
+                    if not changed:
+                        self.sink.count("alias_noop_events")
                 if kind == "list":
                     ra, ad = list(map(id, e.removed)), list(map(id, e.added))
                     if any(ra.count(x) != ad.count(x) for x in set(ra) & set(ad)):
@@ -1432,6 +1470,8 @@ class World:
                 self._sig(reg, "cont-" + kind, method, max(allowed), 1)
             elif key in m0[k].depths and changed:
                 self.sink.count("quiet_link_silent")
+                if method.startswith("a_"):
+                    self.sink.count("alias_quiet_silent")
                 self._sig(reg, "cont-" + kind, method, "quiet", 0)
             else:
                 self.sink.count("container_silent")
@@ -1776,6 +1816,12 @@ class World:
     def targets(self, op):
         """Pool indices an operation would insert under op[1]."""
         k = op[0]
+        if k in ("l", "d", "s", "no", "na", "ni"):
+            m = op[4] if k == "ni" else op[3]
+            if isinstance(m, str) and m.startswith("a_"):
+                # aliased-argument op: stored objects are named by position (no new edge),
+                # only ['pool', i] selectors bring an object in
+                return _alias_pool_idx(list(op[5:] if k == "ni" else op[4:]))
         if k == "set":
             return [op[3]] if op[3] is not None else []
         if k == "setcont":
@@ -1902,6 +1948,10 @@ class World:
             if fn is None:
                 return
             self.sink.count("nested_outer_ops")
+            if method.startswith("a_"):
+                self.opclass = "aliased-arg-nested-outer-mutation"
+                self.sink.count("alias_ops")
+                self.sink.count("alias_nested_outer_ops")
             self.do_cont(c, okind, fn, "%r.%s.%s%r" % (a, tr, method, tuple(op[4:])), method)
             if k == "na":
                 self.sink.count("attribute_route_ops")
@@ -1922,6 +1972,12 @@ class World:
                 return
             self.opclass = {"l": "list-mutation", "d": "dict-mutation", "s": "set-mutation"}[kk]
             self.sink.count("nested_inner_ops")
+            if method.startswith("a_"):
+                self.opclass = "aliased-arg-" + self.opclass
+                self.sink.count("alias_nested_inner_ops")
+                self._alias_run(inner, ikind, fn, "%r.%s[%r].%s%r" % (a, tr, sel, method, tuple(op[5:])),
+                                method, None)
+                return
             self.do_cont(inner, ikind, fn, "%r.%s[%r].%s%r" % (a, tr, sel, method, tuple(op[5:])), method)
         elif k == "aug":
             # augmented assignment of a flat container through the attribute:
@@ -1933,6 +1989,9 @@ class World:
             if fn is None:
                 return
             self.sink.count("attribute_route_ops")
+            if op[4] == "self":
+                self.sink.count("alias_ops")
+                self.sink.count("alias_self_arg_ops")
             self.do_cont(c, kind, fn, "%r.%s %s= %r" % (a, tr, opname, op[4]), "op_" + opname)
             self.opclass = "augmented-assignment"
             self.do_assign(a, tr, c)
@@ -1976,8 +2035,13 @@ class World:
                 if any(x is not None and x is not e and _safe_eq(x, e) and hash(x) == hash(e)
                        for x in args for e in list(c)):
                     self.twin = True
-            self.do_cont(c, self.cont_kind(a, tr), fn, "%r.%s.%s%r" % (a, tr, method, tuple(op[4:])),
-                         method)
+            if method.startswith("a_"):
+                self.opclass = "aliased-arg-" + self.opclass
+                self._alias_run(c, self.cont_kind(a, tr), fn, "%r.%s.%s%r" % (a, tr, method, tuple(op[4:])),
+                                method, op)
+            else:
+                self.do_cont(c, self.cont_kind(a, tr), fn, "%r.%s.%s%r" % (a, tr, method, tuple(op[4:])),
+                             method)
             if (id(a), tr) in self.readded:
                 self.through_readd.update(map(id, c))
         else:
@@ -2001,6 +2065,8 @@ class World:
 
     def _outer_mutation(self, okind, ikind, c, method, args):
         L = len(c)
+        if method.startswith("a_"):
+            return self._alias_mutation(okind, c, method, list(args), False)
         iv = lambda sp: self._inner_value(ikind, sp)               # noqa: E731
         if okind == "dict":
             if method == "set":
@@ -2063,6 +2129,14 @@ class World:
     def _mutation(self, k, c, method, args):
         L = len(c)
         nd = self.node
+        if method.startswith("a_"):
+            return self._alias_mutation({"l": "list", "d": "dict", "s": "set"}[k], c, method, list(args), True)
+        if method.startswith("op_") and args and args[0] == "self":
+            # `a.tr OP= a.tr`: the argument of the in-place operator is the container itself
+            if (k == "l" and (method != "op_iadd" or not 0 < L <= 4)) or (k == "d" and method != "op_ior"):
+                return None
+            f = getattr(operator, method[3:])
+            return lambda c: f(c, c)
         if k == "l":
             if method == "append":
                 b = nd(args[0])
@@ -2223,6 +2297,251 @@ class World:
                 return lambda c: c.intersection_update(bs)
         raise AssertionError((k, method))
 
+
+    # -- aliased arguments -----------------------------------------------------------
+    def _alias_obj(self, c, kind, sel, at=MISSING, nodes=True):
+        """Object named by an alias selector and its relation to the container:
+        ['at'] the object stored at the addressed key / position itself, ['own', q] the
+        q-th stored object, ['pool', i] pool node i (stored here, present elsewhere in the
+        graph, or - all-equal flavour - an equal twin), ['twin', q] an equal plain copy of
+        the q-th stored inner container, ['none'] None.  -> (object, relation)."""
+        vals = _stored(c, kind)
+        t = sel[0]
+        if t == "none":
+            return None, "none"
+        if t == "at":
+            return (at, "at") if at is not MISSING else (MISSING, None)
+        if t == "own":
+            if not vals:
+                return MISSING, None
+            v = vals[sel[1] % len(vals)]
+            return v, "at" if v is at else "own"
+        if t == "pool":
+            v = self.node(sel[1]) if nodes else None
+            if v is None:
+                return MISSING, None
+            return v, "at" if v is at else "own" if any(v is x for x in vals) else "outside"
+        if t == "twin":
+            if nodes or not vals:
+                return MISSING, None
+            v = vals[sel[1] % len(vals)]
+            return (dict(v) if isinstance(v, dict) else set(v) if isinstance(v, set) else list(v)), "twin"
+        raise AssertionError(sel)
+
+    def _alias_mutation(self, kind, c, method, args, nodes):
+        """Mutators whose ARGUMENT aliases what the container stores: the stored object
+        itself (at the addressed key / position or elsewhere in the container), an object
+        present elsewhere in the graph, an equal twin, the container itself, its own items."""
+        L = len(c)
+        cnt = self.sink.count
+
+        def resolve(sel, at=MISSING, none_ok=False):
+            obj, rel = self._alias_obj(c, kind, sel, at, nodes)
+            if obj is MISSING or (rel == "none" and not none_ok):
+                return MISSING, None
+            return obj, rel
+        if kind == "dict":
+            if method in ("a_pop", "a_setdefault", "a_set", "a_getset"):
+                key = args[0]
+                at = dict.get(c, key, MISSING)
+                obj, rel = resolve(args[1], at, method == "a_pop")
+                if obj is MISSING:
+                    return None
+                cnt("alias_arg_" + rel)
+                cnt("alias_key_present" if at is not MISSING else "alias_key_absent")
+                if method == "a_pop":
+                    if rel == "at":
+                        cnt("alias_pop_default_is_stored")
+                    return lambda c: c.pop(key, obj)
+                if method == "a_setdefault":
+                    return lambda c: c.setdefault(key, obj)
+                if method == "a_set":
+                    return lambda c: c.__setitem__(key, obj)
+                return lambda c: c.__setitem__(key, c.get(key, obj))
+            if method == "a_update":
+                mode = args[0]
+                if not L:
+                    return None
+                keys, vals = list(c), list(c.values())
+                cnt("alias_arg_self" if mode in ("self", "self_ior") else "alias_arg_own_items")
+                if mode == "self":
+                    return lambda c: c.update(c)
+                if mode == "self_ior":
+                    return lambda c: operator.ior(c, c)
+                if mode == "same":
+                    upd = dict(zip(keys, vals))
+                elif mode == "one":
+                    upd = {keys[0]: vals[0]}
+                elif mode == "rot":
+                    upd = dict(zip(keys, vals[1:] + vals[:1]))
+                elif mode == "plus":
+                    upd = dict(zip(keys, vals))
+                    free = [kk for kk in KEYS + ("w",) if kk not in upd]
+                    if not free:
+                        return None
+                    upd[free[0]] = vals[0]
+                elif mode in ("copy_ior", "pairs"):
+                    upd = dict(zip(keys, vals))
+                    if mode == "copy_ior":
+                        return lambda c: operator.ior(c, upd)
+                    return lambda c: c.update(list(upd.items()))
+                else:
+                    raise AssertionError(mode)
+                return lambda c: c.update(upd)
+            if method == "a_updsel":
+                upd = {}
+                for key, sel in args[0]:
+                    obj, rel = resolve(sel, dict.get(c, key, MISSING))
+                    if obj is not MISSING:
+                        upd[key] = obj
+                        cnt("alias_arg_" + rel)
+                if not upd:
+                    return None
+                if args[1] == "ior":
+                    return lambda c: operator.ior(c, upd)
+                if args[1] == "pairs":
+                    return lambda c: c.update(list(upd.items()))
+                return lambda c: c.update(upd)
+        elif kind == "list":
+            if method == "a_append":
+                obj, rel = resolve(args[0])
+                if obj is MISSING or L > 8:
+                    return None
+                cnt("alias_arg_" + rel)
+                return lambda c: c.append(obj)
+            if method == "a_insert":
+                obj, rel = resolve(args[1])
+                if obj is MISSING or L > 8:
+                    return None
+                i = args[0] % (L + 1)
+                cnt("alias_arg_" + rel)
+                return lambda c: c.insert(i, obj)
+            if method == "a_setitem":
+                if not L:
+                    return None
+                i = args[0] % L
+                obj, rel = resolve(args[1], c[i])
+                if obj is MISSING:
+                    return None
+                cnt("alias_arg_" + rel)
+                return lambda c: c.__setitem__(i, obj)
+            if method == "a_remove":
+                obj, rel = resolve(args[0])
+                if obj is MISSING or not any(x is obj or _safe_eq(x, obj) for x in c):
+                    return None
+                cnt("alias_arg_" + rel)
+                return lambda c: c.remove(obj)
+            if method == "a_extend":
+                objs = []
+                for sel in args[0]:
+                    obj, rel = resolve(sel)
+                    if obj is not MISSING:
+                        objs.append(obj)
+                        cnt("alias_arg_" + rel)
+                if not objs or L > 8:
+                    return None
+                if args[1] == "iadd":
+                    return lambda c: operator.iadd(c, objs)
+                if args[1] == "slice":
+                    return lambda c: c.__setitem__(slice(len(c), len(c)), objs)
+                return lambda c: c.extend(objs)
+            if method == "a_self":
+                mode = args[0]
+                if not L:
+                    return None
+                i, j = sorted((args[1] % (L + 1), args[2] % (L + 1)))
+                grow = mode in ("ext_self", "iadd_self", "ext_copy", "ins_own", "slice_self")
+                if grow and L > 4:
+                    return None
+                cnt("alias_arg_self" if mode in ("ext_self", "iadd_self", "slice_self", "all_self")
+                    else "alias_arg_own_items")
+                if mode == "ext_self":
+                    return lambda c: c.extend(c)
+                if mode == "iadd_self":
+                    return lambda c: operator.iadd(c, c)
+                if mode == "ext_copy":
+                    return lambda c: c.extend(list(c))
+                if mode == "ins_own":
+                    return lambda c: c.__setitem__(slice(i, i), list(c[j:j + 2]) or list(c[:1]))
+                if mode == "slice_self":
+                    return lambda c: c.__setitem__(slice(i, j), c)
+                if mode == "all_self":
+                    return lambda c: c.__setitem__(slice(None), c)
+                if mode == "all_copy":
+                    return lambda c: c.__setitem__(slice(None), list(c))
+                if mode == "slice_same":
+                    return lambda c: c.__setitem__(slice(i, j), list(c[i:j]))
+                if mode == "slice_rev":
+                    return lambda c: c.__setitem__(slice(i, j), list(c[i:j])[::-1])
+                if mode == "ext_same":
+                    return lambda c: c.__setitem__(slice(None, None, 2), list(c[::2]))
+                if mode == "ext_rev":
+                    return lambda c: c.__setitem__(slice(None, None, 2), list(c[::2])[::-1])
+                if mode == "rot":
+                    return lambda c: c.__setitem__(slice(None), list(c[1:]) + list(c[:1]))
+                if mode == "imul1":
+                    return lambda c: operator.imul(c, 1)
+                raise AssertionError(mode)
+        else:
+            if method in ("a_add", "a_discard", "a_remove"):
+                obj, rel = resolve(args[0])
+                if obj is MISSING:
+                    return None
+                if method == "a_remove" and not any(x is obj for x in c):
+                    return None
+                cnt("alias_arg_" + rel)
+                if method == "a_add":
+                    return lambda c: c.add(obj)
+                if method == "a_discard":
+                    return lambda c: c.discard(obj)
+                return lambda c: c.remove(obj)
+            if method == "a_self":
+                mode = args[0]
+                if not L:
+                    return None
+                own = _stored(c, "set")[args[1] % L]
+                cnt("alias_arg_self" if mode.endswith("_self") else "alias_arg_own_items")
+                if mode in SET_SELF_MODES:
+                    name, what = SET_SELF_MODES[mode]
+                    if name.startswith("op:"):
+                        f = getattr(operator, name[3:])
+                        return lambda c: f(c, c if what == "self" else set(c) if what == "copy" else {own})
+                    return lambda c: getattr(c, name)(c if what == "self" else set(c) if what == "copy"
+                                                      else [own, own])
+                raise AssertionError(mode)
+        raise AssertionError((kind, method))
+
+    def _alias_run(self, c, kind, fn, what, method, op):
+        """Container mutation whose argument aliases stored objects: the ordinary container
+        judgement plus bookkeeping of the nodes that left the container through it (the
+        probes then demand silence of those that are no longer reachable)."""
+        before = _snap(c, kind)
+        self.sink.count("alias_ops")
+        self.sink.count("alias_%s_ops" % kind)
+        self.do_cont(c, kind, fn, what, method)
+        after = _snap(c, kind)
+        if _ids(before, kind) == _ids(after, kind):
+            self.sink.count("alias_noop_ops")
+        bvals = [x for x in (before.values() if kind == "dict" else before) if isinstance(x, Node)]
+        avals = list(after.values() if kind == "dict" else after)
+        left = [x for x in bvals if not any(x is y for y in avals)]
+        if left:
+            self.sink.count("alias_removed_stored")
+            self.alias_left.update(map(id, left))
+        if self.stratum == "b" and op is not None and left and self.nstep % 2 and not self.alias_follow:
+            # the object that left is put back and taken out again (an entry it left behind
+            # would now be counted twice)
+            idx = [i for i, p_ in enumerate(self.pool) if p_ is left[0]]
+            if idx:
+                a, tr, b = op[1], op[2], idx[0]
+                if kind == "list":
+                    self.alias_follow = [["l", a, tr, "append", b], ["l", a, tr, "a_remove", ["pool", b]]]
+                elif kind == "dict":
+                    kk = [q for q in KEYS if q not in after] or [KEYS[0]]
+                    self.alias_follow = [["d", a, tr, "set", kk[0], b], ["d", a, tr, "a_pop", kk[0], ["at"]]]
+                else:
+                    self.alias_follow = [["s", a, tr, "add", b], ["s", a, tr, "a_discard", ["pool", b]]]
+
     # -- probe phase ---------------------------------------------------------------
     def probe_phase(self):
         if not self.regs:
@@ -2335,6 +2654,42 @@ def _flat_idx(x):
     if isinstance(x, list):
         return [i for y in x for i in _flat_idx(y)]
     return []
+
+
+def _stored(c, kind):
+    """Stored objects of a container in a replayable order (sets: by serial)."""
+    if kind == "dict":
+        return list(dict.values(c))
+    if kind == "set":
+        return sorted(c, key=lambda n: n.__dict__.get("ser", 0))
+    return list(c)
+
+
+def _alias_pool_idx(x):
+    """Pool indices named by ['pool', i] selectors anywhere in an argument list."""
+    if isinstance(x, list):
+        if len(x) == 2 and x[0] == "pool" and isinstance(x[1], int):
+            return [x[1]]
+        return [i for y in x for i in _alias_pool_idx(y)]
+    return []
+
+
+# set operations whose argument is the set itself / a copy of it / built from a stored element:
+# mode -> (method name or 'op:<in-place operator>', argument)
+SET_SELF_MODES = {
+    "update_self": ("update", "self"), "ior_self": ("op:ior", "self"), "iand_self": ("op:iand", "self"),
+    "inter_self": ("intersection_update", "self"), "isub_self": ("op:isub", "self"),
+    "ixor_self": ("op:ixor", "self"), "diff_self": ("difference_update", "self"),
+    "symdiff_self": ("symmetric_difference_update", "self"),
+    "update_copy": ("update", "copy"), "isub_copy": ("op:isub", "copy"), "ixor_copy": ("op:ixor", "copy"),
+    "iand_copy": ("op:iand", "copy"), "diff_copy": ("difference_update", "copy"),
+    "own_isub": ("op:isub", "own"), "own_iand": ("op:iand", "own"), "own_ixor": ("op:ixor", "own"),
+    "own_ior": ("op:ior", "own"), "own_update": ("update", "own"), "own_diff": ("difference_update", "own"),
+    "own_inter": ("intersection_update", "own"), "own_symdiff": ("symmetric_difference_update", "own"),
+}
+LIST_SELF_MODES = ("ext_self", "iadd_self", "ext_copy", "ins_own", "slice_self", "all_self", "all_copy",
+                   "slice_same", "slice_rev", "ext_same", "ext_rev", "rot", "imul1")
+DICT_UPDATE_MODES = ("self", "self_ior", "same", "one", "rot", "plus", "copy_ior", "pairs")
 
 
 def _snap(c, kind):
@@ -2545,6 +2900,60 @@ def _trait_src(name, kind=None):
     return {"int": "Int()", "link": "Instance(Node)", "list": "List(Instance(Node))"}[kind]
 
 
+def _sel_src(sel):
+    t = sel[0]
+    return {"at": "<the object stored there>", "none": "None"}.get(t) or (
+        "<stored object #%d>" % sel[1] if t == "own" else "n%d" % sel[1] if t == "pool"
+        else "<equal plain copy of stored container #%d>" % sel[1])
+
+
+def _alias_src(tgt, m, args):
+    """Source text of an aliased-argument operation (stored objects are counted in key /
+    position / serial order modulo the length; list positions modulo len)."""
+    c = tgt
+    if m in ("a_pop", "a_setdefault"):
+        return "%s.%s(%r, %s)" % (c, m[2:], args[0], _sel_src(args[1]))
+    if m == "a_set":
+        return "%s[%r] = %s" % (c, args[0], _sel_src(args[1]))
+    if m == "a_getset":
+        return "%s[%r] = %s.get(%r, %s)" % (c, args[0], c, args[0], _sel_src(args[1]))
+    if m == "a_update":
+        return {"self": "{c}.update({c})", "self_ior": "{c} |= {c}   # operator on the object",
+                "same": "{c}.update(dict({c}))", "one": "{c}.update({{k0: {c}[k0]}})   # k0 = first key",
+                "rot": "{c}.update(<same keys, values rotated by one>)",
+                "plus": "{c}.update(<dict({c}) plus a new key -> first stored object>)",
+                "copy_ior": "{c} |= dict({c})", "pairs": "{c}.update(list({c}.items()))"}[args[0]].format(c=c)
+    if m == "a_updsel":
+        body = "{" + ", ".join("%r: %s" % (kk, _sel_src(sel)) for kk, sel in args[0]) + "}"
+        return {"ior": "%s |= %s", "pairs": "%s.update(list(%s.items()))"}.get(args[1], "%s.update(%s)") % (c, body)
+    if m in ("a_append", "a_remove", "a_add", "a_discard"):
+        return "%s.%s(%s)" % (c, m[2:], _sel_src(args[0]))
+    if m == "a_insert":
+        return "%s.insert(%d %% (len+1), %s)" % (c, args[0], _sel_src(args[1]))
+    if m == "a_setitem":
+        return "%s[%d %% len] = %s" % (c, args[0], _sel_src(args[1]))
+    if m == "a_extend":
+        body = "[" + ", ".join(_sel_src(x) for x in args[0]) + "]"
+        return {"iadd": "%s += %s", "slice": "%s[len:len] = %s"}.get(args[1], "%s.extend(%s)") % (c, body)
+    if m == "a_self" and args[0] in SET_SELF_MODES:
+        name, what = SET_SELF_MODES[args[0]]
+        arg = c if what == "self" else "set(%s)" % c if what == "copy" else \
+            ("{<stored object #%d>}" if name.startswith("op:") else "[<stored object #%d>] * 2") % args[1]
+        if name.startswith("op:"):
+            return "%s %s= %s   # operator on the object" % (
+                c, {"ior": "|", "iand": "&", "isub": "-", "ixor": "^"}[name[3:]], arg)
+        return "%s.%s(%s)" % (c, name, arg)
+    if m == "a_self":
+        t = {"ext_self": "{c}.extend({c})", "iadd_self": "{c} += {c}   # operator on the object",
+             "ext_copy": "{c}.extend(list({c}))", "ins_own": "{c}[i:i] = {c}[j:j+2]",
+             "slice_self": "{c}[i:j] = {c}", "all_self": "{c}[:] = {c}", "all_copy": "{c}[:] = list({c})",
+             "slice_same": "{c}[i:j] = {c}[i:j]", "slice_rev": "{c}[i:j] = reversed({c}[i:j])",
+             "ext_same": "{c}[::2] = {c}[::2]", "ext_rev": "{c}[::2] = reversed({c}[::2])",
+             "rot": "{c}[:] = {c}[1:] + {c}[:1]", "imul1": "{c} *= 1"}[args[0]].format(c=c)
+        return t + "   # i,j = sorted(%d,%d modulo len+1)" % (args[1], args[2])
+    return "%s.%s%r" % (c, m, tuple(args))
+
+
 def script(spec, actions):
     """Human-readable rendering of a history (plain Python against traits)."""
     lines = ["pool = [%s(ser=i) for i in range(%d)]   # n0..n%d%s"
@@ -2595,6 +3004,11 @@ def script(spec, actions):
                          % (act[1], act[2]))
         elif k == "setnest":
             lines.append("n%d.%s = %s" % (act[1], act[2], _nest_src(NESTED[act[2]], act[3])))
+        elif k in ("no", "ni") and str(act[4 if k == "ni" else 3]).startswith("a_"):
+            if k == "no":
+                lines.append(_alias_src("n%d.%s" % (act[1], act[2]), act[3], act[4:]))
+            else:
+                lines.append(_alias_src("n%d.%s[%r]" % (act[1], act[2], act[3]), act[4], act[5:]))
         elif k in ("no", "na"):
             okind, ikind = NESTED[act[2]]
             args = _outer_args_src(okind, ikind, act[3], act[4:])
@@ -2611,9 +3025,10 @@ def script(spec, actions):
             lines.append("n%d.%s[%r].%s(%s)   # inner container; ints are pool indices / positions modulo len"
                          % (act[1], act[2], act[3], act[4], ", ".join(map(repr, act[5:]))))
         elif k == "aug":
-            lines.append("n%d.%s %s= %r   # augmented assignment through the attribute, ints are pool indices"
+            lines.append("n%d.%s %s= %s   # augmented assignment through the attribute, ints are pool indices"
                          % (act[1], act[2], {"ior": "|", "iadd": "+", "imul": "*", "ixor": "^", "isub": "-",
-                                             "iand": "&"}[act[3]], act[4]))
+                                             "iand": "&"}[act[3]],
+                            "n%d.%s" % (act[1], act[2]) if act[4] == "self" else repr(act[4])))
         elif k == "del":
             lines.append("del n%d.%s" % (act[1], act[2]))
         elif k == "reset":
@@ -2635,7 +3050,9 @@ def script(spec, actions):
 
             def nn(x):
                 return "[" + ", ".join("n%d" % i for i in x) + "]" if isinstance(x, list) else "n%d" % x
-            if m == "setitem":
+            if m.startswith("a_"):
+                line = _alias_src(tgt, m, args)
+            elif m == "setitem":
                 line = "%s[%d %% len] = %s" % (tgt, args[0], nn(args[1]))
             elif m == "set":
                 line = "%s[%r] = %s" % (tgt, args[0], nn(args[1]))
@@ -2908,6 +3325,212 @@ def gen_op(rng, W, names, cyclic, delpat=False):
             continue                   # nodes whose hooks a remove_trait left undefined
         return op
     return ["read", 0, "child"]
+
+
+ALIAS_EXPRS = ["cmap.items.value", "cmap:items.value", "cmap.items", "cmap.items:value", "child.cmap.items.value",
+               "cmap.items.*", "cmap.items.child.value", "children.items.value", "children:items.value",
+               "children.items", "children.items.[value,m1]", "child.children.items.value",
+               "children.items.cmap.items.value", "cset.items.value", "cset:items.value", "cset.items",
+               "child.cset.items.value", "cmap.items.cset.items.value", "[children,cset].items.value",
+               "groups.items.items.value", "groups:items.items.value", "rows.items.items.value",
+               "dsets.items.items.value", "ldicts.items.items.value", "ldicts.items:items.value",
+               "child.groups.items.items.value"]
+
+
+def gen_alias_op(rng, W, names, cyclic):
+    """One operation whose argument aliases what the container stores: flat containers,
+    inner containers of containers, and the outer containers themselves (whose stored
+    objects are the inner containers)."""
+    n = len(W.pool)
+    visited = {key[1] for m in W.models for key in m.depths if key[0] == "t"}
+    vis = [i for i, p_ in enumerate(W.pool) if id(p_) in visited] or list(range(n))
+    hooked = {key[1] for m in W.models for key in m.depths if key[0] == "c"}
+    cands = []
+    for i, p_ in enumerate(W.pool):
+        if id(p_) in W.tainted:
+            continue
+        for nm, kd, c in W.conts_of(p_):
+            w = (5 if id(c) in hooked else 1) * (3 if len(c) else 1)
+            if nm in NESTED:
+                cands.append((w, "no", i, nm, None, kd, c))
+                for key, inner in (list(c.items()) if kd == "dict" else list(enumerate(c))):
+                    if _ckind(inner):
+                        w2 = (5 if id(inner) in hooked else 1) * (3 if len(inner) else 1)
+                        cands.append((w2, "ni", i, nm, key, _ckind(inner), inner))
+            else:
+                cands.append((w, "flat", i, nm, None, kd, c))
+    if not cands:
+        return None
+
+    def sel(at_ok=True, nodes=True):
+        r = rng.random()
+        if at_ok and r < 0.4:
+            return ["at"]
+        if r < 0.72:
+            return ["own", rng.randrange(4)]
+        if not nodes:
+            return ["twin", rng.randrange(4)]
+        return ["pool", rng.choice(vis) if rng.random() < 0.7 else rng.randrange(n)]
+    for _ in range(10):
+        x = rng.random() * sum(cd[0] for cd in cands)
+        for w, route, a, tr, isel, kd, c in cands:
+            x -= w
+            if x < 0:
+                break
+        nodes = route != "no"
+        if route == "flat" and tr in CONTS and rng.random() < 0.12 and (kd != "list" or 0 < len(c) <= 4):
+            # `a.tr OP= a.tr` through the attribute
+            op = ["aug", a, tr, "iadd" if kd == "list" else "ior" if kd == "dict" else
+                  rng.choice(["ior", "iand", "isub", "ixor"]), "self"]
+        else:
+            if kd == "dict":
+                key = rng.choice(list(c)) if len(c) and rng.random() < 0.8 else rng.choice(KEYS)
+                m = _wchoice(rng, [("a_pop", 6), ("a_setdefault", 2), ("a_set", 3), ("a_getset", 2),
+                                   ("a_update", 3), ("a_updsel", 2)])
+                if m == "a_update":
+                    args = [rng.choice(DICT_UPDATE_MODES)]
+                elif m == "a_updsel":
+                    args = [[[rng.choice(list(c)) if len(c) and rng.random() < 0.7 else rng.choice(KEYS),
+                              sel(True, nodes)] for _ in range(rng.randint(1, 3))],
+                            rng.choice(["update", "update", "ior", "pairs"])]
+                else:
+                    args = [key, ["none"] if m == "a_pop" and rng.random() < 0.1 else sel(True, nodes)]
+            elif kd == "list":
+                m = _wchoice(rng, [("a_append", 2), ("a_insert", 2), ("a_setitem", 4), ("a_remove", 4),
+                                   ("a_extend", 2), ("a_self", 6)])
+                if m in ("a_append", "a_remove"):
+                    args = [sel(False, nodes)]
+                elif m == "a_insert":
+                    args = [rng.randrange(6), sel(False, nodes)]
+                elif m == "a_setitem":
+                    args = [rng.randrange(6), sel(True, nodes)]
+                elif m == "a_extend":
+                    args = [[sel(False, nodes) for _ in range(rng.randint(1, 3))],
+                            rng.choice(["extend", "iadd", "slice"])]
+                else:
+                    args = [rng.choice(LIST_SELF_MODES), rng.randrange(6), rng.randrange(6)]
+            else:
+                m = _wchoice(rng, [("a_add", 2), ("a_discard", 3), ("a_remove", 2), ("a_self", 6)])
+                args = [rng.choice(sorted(SET_SELF_MODES)), rng.randrange(4)] if m == "a_self" else \
+                    [["own", rng.randrange(4)] if rng.random() < 0.7 else
+                     ["pool", rng.choice(vis) if rng.random() < 0.7 else rng.randrange(n)]]
+            if route == "flat":
+                op = [{"list": "l", "dict": "d", "set": "s"}[kd], a, tr, m] + args
+            elif route == "ni":
+                op = ["ni", a, tr, isel, m] + args
+            else:
+                op = ["no", a, tr, m] + args
+        if not cyclic and W.would_cycle(op):
+            continue
+        if W.touches_tainted(op):
+            continue
+        return op
+    return None
+
+
+def alias_cases(quick):
+    """Stratum 'a' (enumerated): container mutators whose argument aliases a stored
+    object - the object stored at the addressed key / position, another stored object,
+    an outsider (equal twin in the all-equal flavour), the container itself, its own
+    items - on observed dicts, lists, sets and containers of containers; afterwards the
+    object that left is put back and taken out again."""
+    out = []
+    A, O0, O1, P4 = ["at"], ["own", 0], ["own", 1], ["pool", 4]
+    dfam = [
+        # (name, cmap contents, ops)
+        ("pop-stored-default", [["x", 2], ["y", 3]],
+         [["a_pop", "x", A], ["set", "z", 2], ["a_pop", "z", A], ["a_pop", "y", ["pool", 3]]]),
+        ("pop-stored-default-dup", [["x", 2], ["y", 2]], [["a_pop", "x", A], ["a_pop", "y", ["pool", 2]]]),
+        ("pop-other-stored", [["x", 2], ["y", 3]], [["a_pop", "x", O1], ["a_pop", "y", A]]),
+        ("pop-absent-stored", [["x", 2], ["y", 3]], [["a_pop", "z", O0], ["a_pop", "x", ["none"]]]),
+        ("pop-outsider", [["x", 2], ["y", 3]], [["a_pop", "x", P4], ["a_pop", "z", P4], ["set", "x", 4]]),
+        ("setdefault-stored", [["x", 2], ["y", 3]],
+         [["a_setdefault", "x", A], ["a_setdefault", "z", O0], ["del", "x"], ["del", "z"]]),
+        ("set-same", [["x", 2], ["y", 3]], [["a_set", "x", A], ["a_set", "y", O0], ["del", "x"], ["del", "y"]]),
+        ("getset", [["x", 2], ["y", 3]],
+         [["a_getset", "x", O1], ["a_getset", "z", O1], ["del", "y"], ["del", "z"]]),
+        ("updsel", [["x", 2], ["y", 3]],
+         [["a_updsel", [["x", A], ["y", O0], ["z", O1]], "update"], ["del", "x"], ["del", "y"], ["del", "z"]]),
+    ] + [("update-" + mode, [["x", 2], ["y", 3]], [["a_update", mode], ["del", "x"], ["a_pop", "y", A]])
+         for mode in DICT_UPDATE_MODES]
+    lfam = [
+        ("append-stored", [2, 3], [["a_append", O0], ["delitem", 0], ["a_remove", ["pool", 2]]]),
+        ("insert-stored", [2, 3], [["a_insert", 1, O1], ["a_remove", O1], ["a_remove", O1]]),
+        ("setitem-same", [2, 3], [["a_setitem", 0, A], ["a_setitem", 1, O0], ["delitem", 0], ["delitem", 0]]),
+        ("remove-dup", [2, 2, 3], [["a_remove", O0], ["a_remove", ["pool", 2]], ["append", 2]]),
+        ("remove-outsider", [2, 3], [["a_remove", P4], ["a_append", P4], ["a_remove", P4]]),
+        ("extend-stored", [2, 3], [["a_extend", [O0, O0, O1], "extend"], ["delslice", 0, 2], ["clear"]]),
+        ("iadd-stored", [2, 3], [["a_extend", [O1], "iadd"], ["a_remove", O1], ["a_remove", O1]]),
+        ("slice-append-stored", [2, 3], [["a_extend", [O0], "slice"], ["delitem", 0], ["delitem", 1]]),
+    ] + [("self-" + mode, [2, 3, 2], [["a_self", mode, 1, 3], ["delitem", 0], ["a_remove", ["pool", 2]]])
+         for mode in LIST_SELF_MODES]
+    sfam = [
+        ("add-stored", [2, 3], [["a_add", O0], ["a_discard", O0], ["add", 2]]),
+        ("discard-stored", [2, 3], [["a_discard", O1], ["add", 3], ["a_remove", O1]]),
+        ("remove-stored", [2, 3], [["a_remove", O0], ["a_add", ["pool", 2]], ["a_discard", ["pool", 2]]]),
+        ("discard-outsider", [2, 3], [["a_discard", P4], ["a_add", P4], ["a_discard", P4]]),
+    ] + [("self-" + mode, [2, 3], [["a_self", mode, 0], ["add", 2], ["discard", 2]])
+         for mode in sorted(SET_SELF_MODES)]
+    texts = {
+        "d": [("cmap.items.value", 0), ("cmap:items.value", 0), ("cmap.items", 0), ("cmap.items:value", 0),
+              ("child.cmap.items.value", 1), ("cmap.items.*", 0)],
+        "l": [("children.items.value", 0), ("children:items.value", 0), ("children.items", 0),
+              ("child.children.items.value", 1), ("children.items.[value,m1]", 0)],
+        "s": [("cset.items.value", 0), ("cset:items.value", 0), ("cset.items", 0), ("child.cset.items.value", 1)],
+    }
+    for kk, fam, tr in (("d", dfam, "cmap"), ("l", lfam, "children"), ("s", sfam, "cset")):
+        for ti, (text, own) in enumerate(texts[kk]):
+            for fi, (vname, content, ops) in enumerate(fam):
+                for form in ("text", "expr"):
+                    if quick and (ti + fi + (form == "expr")) % 2:
+                        continue
+                    pre = ([["set", 0, "child", 1]] if own else []) + [["setcont", own, tr, content]]
+                    acts = pre + [["observe", 0]] + [[kk, own, tr] + list(o) for o in ops]
+                    out.append((text, kk + ":" + vname, form, acts))
+    # containers of containers: the stored objects of the outer container are inner containers
+    nfam = [
+        ("groups.items.items.value", [["setnest", 0, "groups", [["x", [2]], ["y", [3]]]]],
+         [("outer-pop-stored-default", [["no", 0, "groups", "a_pop", "x", A],
+                                        ["no", 0, "groups", "set", "x", [2]],
+                                        ["no", 0, "groups", "a_pop", "x", ["twin", 0]]]),
+          ("outer-set-same", [["no", 0, "groups", "a_set", "x", A], ["no", 0, "groups", "a_set", "z", O1],
+                              ["no", 0, "groups", "del", "x"], ["no", 0, "groups", "del", "z"]]),
+          ("outer-setdefault", [["no", 0, "groups", "a_setdefault", "x", A],
+                                ["no", 0, "groups", "a_setdefault", "z", O0], ["no", 0, "groups", "del", "x"]]),
+          ("outer-update-self", [["no", 0, "groups", "a_update", "self"],
+                                 ["no", 0, "groups", "a_update", "copy_ior"], ["no", 0, "groups", "del", "x"]]),
+          ("inner-remove-stored", [["ni", 0, "groups", "x", "a_append", O0],
+                                   ["ni", 0, "groups", "x", "a_remove", O0],
+                                   ["ni", 0, "groups", "x", "a_remove", ["pool", 2]]]),
+          ("inner-self", [["ni", 0, "groups", "x", "a_self", "ext_self", 0, 1],
+                          ["ni", 0, "groups", "x", "a_self", "all_self", 0, 1],
+                          ["ni", 0, "groups", "x", "delitem", 0]])]),
+        ("rows.items.items.value", [["setnest", 0, "rows", [[2], [3]]]],
+         [("outer-setitem-same", [["no", 0, "rows", "a_setitem", 0, A], ["no", 0, "rows", "a_setitem", 1, O0],
+                                  ["no", 0, "rows", "delitem", 0]]),
+          ("outer-append-stored", [["no", 0, "rows", "a_append", O0], ["no", 0, "rows", "a_remove", O0],
+                                   ["no", 0, "rows", "a_remove", ["twin", 0]]]),
+          ("outer-self", [["no", 0, "rows", "a_self", "ext_self", 0, 1],
+                          ["no", 0, "rows", "a_self", "all_self", 0, 1], ["no", 0, "rows", "delitem", 0]])]),
+        ("dsets.items.items.value", [["setnest", 0, "dsets", [["x", [2, 3]]]]],
+         [("inner-set-self", [["ni", 0, "dsets", "x", "a_self", "isub_self", 0],
+                              ["ni", 0, "dsets", "x", "add", 2], ["ni", 0, "dsets", "x", "a_discard", O0]]),
+          ("outer-pop-stored-default", [["no", 0, "dsets", "a_pop", "x", A],
+                                        ["no", 0, "dsets", "set", "x", [2]]])]),
+        ("ldicts.items.items.value", [["setnest", 0, "ldicts", [[["x", 2], ["y", 3]]]]],
+         [("inner-pop-stored-default", [["ni", 0, "ldicts", 0, "a_pop", "x", A],
+                                        ["ni", 0, "ldicts", 0, "set", "z", 2],
+                                        ["ni", 0, "ldicts", 0, "a_pop", "z", A]]),
+          ("inner-update-self", [["ni", 0, "ldicts", 0, "a_update", "self"],
+                                 ["ni", 0, "ldicts", 0, "a_pop", "y", O1]])]),
+    ]
+    for text, pre, variants in nfam:
+        for conn in (".", ":"):
+            t2 = text.replace(".items.items", "%sitems.items" % conn, 1)
+            for vname, ops in variants:
+                for form in ("text", "expr"):
+                    out.append((t2, "n:" + vname, form, pre + [["observe", 0]] + [list(o) for o in ops]))
+    return out
 
 
 def names_in(ast, acc=None):
@@ -3213,6 +3836,8 @@ def random_history(ctx, rng, stratum):
             dyn["terminal"] = dyn["terminal"] and terminal
         elif stratum == "k" and (k == 0 or rng.random() < 0.5):
             ast = gen_nested_expr(rng)
+        elif stratum == "b" and (k == 0 or rng.random() < 0.5) and rng.random() < 0.65:
+            ast = parse_text(rng.choice(ALIAS_EXPRS))
         else:
             ast = pick_ast(rng, ctx, cyc)
             if stratum == "o":
@@ -3343,6 +3968,17 @@ def random_history(ctx, rng, stratum):
                         if idxs and any(c[j] is objs[0] for j in idxs):
                             return ["l", ai, tr, rng.choice(["delitem", "pop", "remove"]),
                                     rng.choice(idxs)]
+        if stratum == "b":
+            # arguments that alias stored objects; an object that left through such an op
+            # is then put back and taken out again
+            if W.alias_follow:
+                op = W.alias_follow.pop(0)
+                if not W.touches_tainted(op):
+                    return op
+            if rng.random() < 0.45:
+                op = gen_alias_op(rng, W, names, cyc)
+                if op is not None:
+                    return op
         if stratum == "k" and rng.random() < 0.6:
             return gen_nested_op(rng, W, names, cyc)
         if stratum == "o":
@@ -4083,10 +4719,28 @@ def run(ctx):
                     report(ctx, spec, actions, res, cid)
         finally:
             ctx.end()
+    # ---- stratum a: arguments that alias stored objects (enumerated) -------------------
+    for ai, (text, vname, form, acts) in enumerate(alias_cases(ctx.quick)):
+        if not ctx.mine(ai):
+            continue
+        cid = "a:%d" % ai
+        if not ctx.begin(cid, {"expr": text, "variant": vname, "form": form}):
+            continue
+        try:
+            for alleq in (False, True):
+                spec = {"alleq": alleq, "npool": 5, "regs": [_rs(text, form)], "stratum": "a"}
+                actions = [list(a) for a in acts]
+                res = execute(spec, actions, ctx)
+                ctx.count("histories_alias_directed")
+                if res["key"]:
+                    report(ctx, spec, actions, res, cid)
+        finally:
+            ctx.end()
     # ---- strata t / c: random histories ------------------------------------------
     for stratum, nh in (("t", ctx.scale(1600, 60000)), ("c", ctx.scale(600, 20000)),
                         ("r", ctx.scale(400, 12000)), ("k", ctx.scale(400, 12000)),
-                        ("o", ctx.scale(240, 8000)), ("y", ctx.scale(200, 6000))):
+                        ("o", ctx.scale(240, 8000)), ("y", ctx.scale(200, 6000)),
+                        ("b", ctx.scale(320, 10000))):
         for h in range(nh):
             if not ctx.mine(h):
                 continue
@@ -4100,7 +4754,8 @@ def run(ctx):
                 W = res["world"]
                 ctx.count({"t": "histories_acyclic", "c": "histories_cyclic",
                            "r": "histories_dynamic", "k": "histories_nested",
-                           "o": "histories_reroot", "y": "histories_del"}[stratum])
+                           "o": "histories_reroot", "y": "histories_del",
+                           "b": "histories_alias"}[stratum])
                 if W.delsig:
                     ctx.count("histories_del_rehook_pattern")
                 if W.multi:
